@@ -25,7 +25,7 @@ def run(pid, tier, seed):
     for e in evs:
         if e.get("ev") == "summary":
             chk.add_eval(e["compared"])
-            chk.coverage_extra["exhaustive"] = {k: e[k] for k in ("maxlen", "compared", "agree", "serde_panics")}
+            chk.coverage_extra["identifier_enumeration"] = {k: e[k] for k in ("maxlen", "compared", "agree", "serde_panics")}
             for c in e["classes"]:
                 if not c.endswith(":conventional"):
                     chk.add_distinct(c)
